@@ -135,7 +135,7 @@ def noise_floor(model, x, base, seed: int) -> dict:
     return {t: float(np.max(np.abs(np.asarray(out[t]) - np.asarray(base[t])))) if t in out else 0.0 for t in base.keys()}
 
 
-def equivariance_defects(model, cfg, probes, ops):
+def equivariance_defects(model, cfg, probes, ops, floor_scale: float = 1.0):
     """Returns (defects persisting on every probe, status) with status in {"ok", "suppressed", "nonfinite"}.
     A defect counts on a probe when it exceeds max(TOL*scale, 30*noise_floor) for that probe and type."""
     per_probe = []
@@ -159,7 +159,7 @@ def equivariance_defects(model, cfg, probes, ops):
                 if a.shape != b.shape:
                     bad[gi] = (list(t), float("inf"), 0.0)
                     break
-                scale = max(1.0, float(np.max(np.abs(b))))
+                scale = max(floor_scale, float(np.max(np.abs(b))))
                 d = float(np.max(np.abs(a - b)))
                 if d > TOL * scale:
                     if d > 30.0 * nf.get(t, 0.0):
@@ -178,7 +178,7 @@ def equivariance_defects(model, cfg, probes, ops):
             gi = 1000 + ax  # pseudo group index for translations
             for t in rhs.keys():
                 a, b = np.asarray(lhs[t]), np.asarray(rhs[t])
-                scale = max(1.0, float(np.max(np.abs(b))))
+                scale = max(floor_scale, float(np.max(np.abs(b))))
                 d = float(np.max(np.abs(a - b)))
                 if d > TOL * scale:
                     if d > 30.0 * nf.get(t, 0.0):
@@ -275,7 +275,9 @@ def gen_plan(rng, profile: dict, seed: int) -> dict:
                 "crash": crash, "restart_key": rng.getrandbits(31),
             }
             segs.append(seg)
-        return {"mode": mode, "cfg": cfg, "model_key": rng.getrandbits(31), "data_seed": rng.getrandbits(24), "probe_seed": rng.getrandbits(24), "segments": segs}
+        # equivariance must hold at every input amplitude (stabilising epsilons bite at small ones): per-run amplitude
+        return {"mode": mode, "cfg": cfg, "model_key": rng.getrandbits(31), "data_seed": rng.getrandbits(24), "probe_seed": rng.getrandbits(24), "segments": segs,
+                "probe_amplitude": rng.choice([1.0, 1.0, 0.1, 0.02])}
     # crosstalk
     eq = rng.random() < 0.5
     classes = ["ConvBlock", "ResNet", "ResNet", "UNet", "DilResNet"] if eq else ["ResNet", "ResNet", "UNet", "DilResNet"]
@@ -340,12 +342,16 @@ def _exec_train(plan, ctx):
     model = zoo.build_model(cfg, jax.random.PRNGKey(plan["model_key"]))
     init_model = model
     bank0 = bank_leaves(model)
+    amp = float(plan.get("probe_amplitude", 1.0))
     probes = [zoo.probe_input(cfg, plan["probe_seed"] + i) for i in range(3)]
+    if amp != 1.0:
+        probes = [geom.MultiImage({t: v * amp for t, v in pr.items()}, pr.D, pr.is_torus) for pr in probes]
+        bump("small_amplitude_probes")
     kinds.append(cfg["cls"])
 
     def invariants(m, where, seg_model_before):
         nonlocal evals
-        defects, status, ill = equivariance_defects(m, cfg, probes, ops)
+        defects, status, ill = equivariance_defects(m, cfg, probes, ops, amp)
         if defects is None:
             bump("discarded_nonfinite")
             return False
